@@ -336,3 +336,56 @@ def check(model, rep):
     _WrenchChecker(model, RuleAlias(rep, {'R12.3': 'R11.7'})).r123()
     rep.rules['R11.7'] = ('every leg wrench is a force at a point: makeWrench(position, magnitude, direction) = Wrench(direction * magnitude, position, frame) = [p x f ; f] '
                           'on every path, whatever the magnitude (rule function shared with C12 R12.3)')
+    r118(model, rep, sp)
+
+
+def r118(model, rep, sp):
+    """The mass model the mass-carrying statics works with comes from the platform definition: which definition entry ends in which field is decided
+    by a backward def-use flow (field <- setter parameter <- newSP argument <- loadSP local <- definition key; sa/rules/roleflow.py), and
+    judged by the definition's own vocabulary: `<Component>Mass` entries are masses, `<Component>COGD` entries are distances of that
+    component's centre of gravity, `...Extension` entries are lengths.  carryMassCalc puts the weight `self._act_<c>_mass` at the point
+    getActuatorLoc(.., side) = joint + unit * `self._act_<c>_grav_center` (R11.3 / R11.5), so
+      (a) the mass field and the centre-of-gravity field of one component are fed by entries of the SAME component, and
+      (b) a mass field never receives a length (a COGD entry or a value computed from extensions), a centre-of-gravity field never a mass."""
+    from .roleflow import RoleFlow, keys_of
+    rep.rule('R11.8', 'actuator mass model: the definition entries reach the fields the mass-carrying statics reads by role - <C>Mass into the mass field and '
+                      '<C>COGD (or a length inferred from the extensions) into the centre-of-gravity field of the same component C, on every loader path')
+    rf = RoleFlow(model, [SPM])
+    n = 0
+    for comp in ('shaft', 'motor'):
+        mfield, cfield = '_act_%s_mass' % comp, '_act_%s_grav_center' % comp
+        mo, msites = rf.field(sp, mfield)
+        co, csites = rf.field(sp, cfield)
+        if not msites or not csites:
+            rep.ob('R11.8', sp.module.relpath, 'stores of %s / %s' % (mfield, cfield), False, 'field never stored', shape=True, qualname='SP')
+            continue
+        where = [f_ for f_, _n in msites if f_.name != '__init__'] or [msites[0][0]]
+        mkeys, ckeys = keys_of({o for o in mo if o[0] == 'key'}), keys_of({o for o in co if o[0] == 'key'})
+        mcomp = {k[-1][:-len('Mass')] for k in mkeys if k[-1].endswith('Mass')}
+        ccomp = {k[-1][:-len('COGD')] for k in ckeys if k[-1].endswith('COGD')}
+        n += 1
+        unknown = sorted(str(o[1]) for o in (mo | co) if o[0] == 'unknown')
+        if unknown or not mcomp or not ccomp:
+            rep.ob('R11.8', where[0], 'definition entries behind %s / %s' % (mfield, cfield), False,
+                   'origins not resolved to definition entries: %s (mass entries %s, centre-of-gravity entries %s)' % (unknown, sorted(mkeys), sorted(ckeys)), shape=True)
+            continue
+        # (b) roles
+        bad = []
+        for o in mo:
+            ks = keys_of({o})
+            if o[0] == 'key' and not o[1][-1].endswith('Mass'):
+                bad.append('the mass field %s receives the definition entry %s' % (mfield, '/'.join(o[1])))
+            if o[0] == 'expr' and ks and all(k[-1].endswith(('Extension', 'COGD')) for k in ks):
+                bad.append('the mass field %s receives %s, a length computed from %s' % (mfield, o[1], sorted('/'.join(k) for k in ks)))
+        for o in co:
+            ks = keys_of({o})
+            if ks and any(k[-1].endswith('Mass') for k in ks):
+                bad.append('the centre-of-gravity field %s receives a value made from the mass entry %s' % (cfield, sorted('/'.join(k) for k in ks if k[-1].endswith('Mass'))))
+        rep.ob('R11.8', where[0], '%s holds masses, %s holds distances' % (mfield, cfield), not bad,
+               '; '.join(bad) + ': on that loader path the weights the mass-carrying statics adds are not those of the definition')
+        # (a) same component
+        rep.ob('R11.8', where[0], '%s and %s describe one component' % (mfield, cfield), mcomp == ccomp,
+               'the weight of %s (entries %s) is applied at the centre of gravity configured by %s: mass and centre of gravity of different components are '
+               'paired, so the moment of the actuator weights about the plate is wrong whenever the two distances differ'
+               % (sorted(mcomp), sorted('/'.join(k) for k in mkeys), sorted('/'.join(k) for k in ckeys)))
+    rep.floor('R11.8', 'actuator components with a mass model', n, 2)
